@@ -1,6 +1,6 @@
 (* C02 -- Requests are served only from the board's configured image, partition, IP. *)
 From Coq Require Import List NArith ZArith Bool String.
-From NV Require Import Lib.Res Lib.PyInt Gen.Boot Boot.Model Boot.Proofs.
+From NV Require Import Lib.Res Lib.PyInt Gen.Boot Boot.Model Boot.Proofs Boot.Cache.
 From NV Require FatVol.Model FatVol.Spec FatVol.ProofsInv FatVol.ProofsWalk FatVol.ProofsDots.
 Import ListNotations.
 Open Scope N_scope.
@@ -45,6 +45,15 @@ Theorem C02_no_ip_served : forall boards client p0 rest b,
   boot_resolve boards client (p0 :: rest) = Served (b_image b) (b_partition b) rest.
 Proof. exact no_ip_served. Qed.
 Print Assumptions C02_no_ip_served.
+
+(* the per-serial cache of opened volumes (server.images) is transparent: over ANY history of requests -- any
+   serials, any clients, refusals and misses in between -- every request gets the outcome the board table alone
+   gives, i.e. a cached volume never stands for another board's image or another partition of it *)
+Theorem C02_cache_transparent : forall boards reqs,
+  fst (serve_all boards [] reqs) = map (fun r => boot_resolve boards (fst r) (snd r)) reqs /\
+  cache_ok boards (snd (serve_all boards [] reqs)).
+Proof. intros boards reqs. apply serve_all_transparent, empty_cache_ok. Qed.
+Print Assumptions C02_cache_transparent.
 
 (* Inside the configured volume the remaining components are resolved by FatPath, which does not
    normalise: "." and ".." are looked up as the dot entries stored in each sub-directory (the root
